@@ -9,9 +9,11 @@ import (
 
 // Vocabulary: small and colliding on purpose (DESIGN §3).
 var nsNames = []string{"default", "ns1", "ns2", "ns3"}
-var wlNames = []string{"a", "b", "c", "web", "db"}
+
+// workload names: DNS-1123 subdomains - dots are legal, and so are more than 63 characters (the last one has 64)
+var wlNames = []string{"a", "b", "c", "web", "db", "a", "b", "web", "web.v1", "l" + strings.Repeat("o", 61) + "ng"}
 var labelKeys = []string{"app", "tier", "env", "a", "b", "ab"}
-var labelVals = []string{"x1", "x2", "web", "db", "c", ""} // the empty string is a valid label value
+var labelVals = []string{"x1", "x2", "web", "db", "c", "", "Web"} // the empty string is a valid label value; labels are case-sensitive
 var portNames = []string{"http", "dns", "metrics"}
 var protos = []string{"TCP", "UDP", "SCTP"}
 var portPool = []int{80, 1, 2, 53, 79, 81, 443, 8080, 8081, 65534, 65535}
@@ -300,6 +302,10 @@ func genWorkload(t *rapid.T, l string, ns string, cfg *GenCfg) Workload {
 		wl.Ports = append(wl.Ports, cp)
 	}
 	wl.SplitContainers = np >= 2 && rapid.IntRange(0, 3).Draw(t, l+"split") == 0
+	if np >= 2 && rapid.IntRange(0, 5).Draw(t, l+"ncont") == 0 {
+		// three or four containers (some may end up without ports)
+		wl.NCont = rapid.IntRange(3, 4).Draw(t, l+"ncontn")
+	}
 	if np >= 1 && rapid.IntRange(0, 3).Draw(t, l+"helper") == 0 {
 		wl.Helper = rapid.IntRange(1, 3).Draw(t, l+"helperpos")
 	}
